@@ -172,3 +172,14 @@ def run(F, R):
         R.check(not bad, "R07.7", "to_value-roundtrip:" + (b.impl_self or fam), tov.where(), "to_value builds %s ⊆ parse arms %s" % (sorted(built), sorted(acc)),
                 "to_value can build %s which parse has no arm for (the scalar's own output is rejected as input)" % sorted(bad))
     R.floor("R07.7", "other ScalarType impls", n7, 3)
+
+    R.rule("R07.8", "char coercion counts characters, not bytes: <char as ScalarType>::parse decides from Chars::next() alone (exactly one character) and contains no "
+                    "byte-length comparison — a char takes 1 to 4 UTF-8 bytes, so any len() bound rejects or admits the wrong strings")
+    cp = [b for b in parses if (b.impl_self or "") == "char"]
+    R.floor("R07.8", "char::parse", len(cp), 1)
+    for b in cp:
+        lens = [c for c in b.calls() if c.callee and re.search(r"(string::\{impl#\d+\}|str::\{impl#\d+\})::len$|::len$", c.callee) and c.argtys and re.search(r"String|str", c.argtys[0])]
+        nexts = [c for c in b.calls() if c.callee and re.search(r"str::iter::\{impl#\d+\}::next$", c.callee)]
+        R.check(not lens and len(nexts) >= 2, "R07.8", "char::parse:no-byte-length-test", b.where(), "%d Chars::next calls, no len()" % len(nexts),
+                "char::parse tests the byte length of the string (%d len() calls): characters outside the Basic Multilingual Plane take 4 bytes and are rejected or "
+                "mis-classified" % len(lens))
